@@ -484,6 +484,7 @@ def _run(pid, P, tier, seed, scratch, t0):
     bounded_fail = []
     try:
         import witness
+        witness.TIER = tier
         for name, claim, bf in witness.bounded_standins(pid, REPO, scratch):
             obligations.append(dict(id=name, cfg='replay', where=bf['fn'], text=claim, backend='bounded replay through the public API', bounded=True,
                                     tried=(bf.get('witness_search') or {}).get('requests')))
